@@ -93,25 +93,36 @@ def set_border_color(chk, prog, names):
 
 
 def sna_border(chk, prog, names):
-    """sna::load passes from_bits(header[26] & 7): constant-propagate the masking expression at the call site"""
-    cg, fa = cc.scans(prog)
-    LOAD = prog.fn_path("rustzx_core", "snapshot::sna::load")
-    fn = prog.fn(LOAD)
-    FB = prog.fn_path("rustzx_core", "ZXColor::from_bits")
-    # find the from_bits call whose result feeds set_border_color, and the BitAnd feeding it
-    body = fn.body
-    found = False
-    for b in body["blocks"]:
-        t = b["t"]
-        if t["k"] == "call" and t["f"].get("path") == FB:
-            arg = t["args"][0]
-            # look for `arg = BitAnd(x, const 7)` in the same block
-            for s in b["s"]:
-                if s[0] == "=" and arg[0] in ("mv", "cp") and s[1]["l"] == arg[1]["l"] and s[2][0] == "bin" and s[2][1] == "BitAnd":
-                    c = s[2][3]
-                    if c[0] == "c" and c[1].get("v", {}).get("int") == 7:
-                        found = True
-    chk.check(found, "T-BITS/sna::load/border", "sna::load does not pass (byte & 7) to ZXColor::from_bits")
+    """every successful path of sna::load (either machine; helper functions inlined by the walker) calls the repainting
+    setter exactly once with ZXColor::from_bits(header[26] & 7)"""
+    from . import loaders as ld
+    ln = ld.LoaderNames(prog)
+    COLOR = prog.adt_path("rustzx_core", "ZXColor")
+    n = 0
+    for m in names.machine_variants():
+        size = K(49179 if m == "Sinclair48K" else 131103, 64)
+
+        def extra(w_, st, path, args, dty, where, size=size):
+            if path == ld.SEEK and not any(e.path == ld.SEEK for e in st.trace):
+                return EffectResult(Agg(("adt", "core::result::Result"), 0, [size]), havoc=False)
+            return None
+        w = ld.make_loader_walker(prog, ln, opaque=[ln.POP, ln.REFRESH, ln.SETBORDER, ln.REMAP, ln.SWITCH, ln.RAMMUT], extra_hook=extra, loop_bound=8)
+        st = ld.emulator_state(w, prog, ln, m)
+        rs = ld.run_loader(prog, ln, w, "snapshot::sna::load", st)
+        good = [r for r in rs if r.outcome == "return" and isinstance(r.ret, Agg) and r.ret.variant == 0]
+        if not good:
+            chk.undecided_("T-BITS/sna::load/%s/border" % m, "no successful load path")
+            continue
+        for r in good:
+            sb = [e for e in r.trace if e.path == ln.SETBORDER]
+            ok = len(sb) == 1 and isinstance(sb[0].args[2], Agg)
+            if ok:
+                dsc = prog.adt(COLOR)["variants"][sb[0].args[2].variant]["discr"]
+                ok = c04.cc_decide(r, tm.cmp("eq", tm.binop("and", ld.file_sym(0, 26), K(7, 8)), K(dsc, 8))) is True
+            chk.check(ok, "T-BITS/sna::load/border", "sna::load does not pass ZXColor::from_bits(header[26] & 7) to the border setter on the %s" % m)
+            n += 1
+    chk.count("sna-border-paths", n)
+    chk.floor("sna-border-paths", 16)
 
 
 def beam_map(chk, prog, names, m):
